@@ -67,6 +67,7 @@ class Interp:
         self._loop_heads = {}
         self._thresholds = {}
         self._liveness = {}
+        self._rpo = {}
         self.frame_bodies = {}
         self.quiet_fns = set(self.opt.get("quiet_fns", ()))   # obligations in these fns are not recorded
 
